@@ -58,7 +58,9 @@ def r3b(db, rep):
     r = rep.rule("R3b", "K4", "terminal scan: every block without successors contributes a root - its last instruction, or the block "
                  "itself when it is empty (an empty exit block still receives the definitions that are live out of the function)")
     inst = empty = 0
-    for d in bodies_under(db, DCE):
+    from armlib import unit_bodies
+    roots = [b_["def"] for b_ in unit_bodies(db, db.hir[DCE])]
+    for d in [x for rt in roots for x in bodies_under(db, rt)]:
         body = db.mir.get(d)
         if body is None:
             continue
@@ -78,7 +80,9 @@ def r1(db, rep):
     r = rep.rule("R1", "K7", "dead_code_elimination mutates IL only through block_mut -> instruction_mut -> "
                  "operation_mut, and the only value stored through operation_mut is Operation::nop()")
     cache = {}
-    for d in bodies_under(db, DCE):
+    from armlib import unit_bodies
+    roots = [b_["def"] for b_ in unit_bodies(db, db.hir[DCE])]
+    for d in [x for rt in roots for x in bodies_under(db, rt)]:
         body = db.mir[d]
         rep.analysed(d)
         tm = terms_of(db, d, cache)
@@ -106,8 +110,8 @@ def r2(db, rep):
     r = rep.rule("R2", "K4", "liveness roots: the scan over all instructions marks, for Branch and Intrinsic, the "
                  "definitions reaching the operation before it executes; terminal blocks are those whose edges_out is "
                  "empty and contribute the definitions reaching their last location")
-    hb = db.hir[DCE]
-    m = main_match(hb, OP)
+    from armlib import main_match_in_unit
+    m, hb = main_match_in_unit(db, db.hir[DCE], OP)
     rep.anchor(m is not None, "match over Operation in the root scan")
     rooted = {}
     for a in arm_table(m):
@@ -122,7 +126,8 @@ def r2(db, rep):
         if v in rooted and "insert" in rooted[v]:
             r.open("roots|%s" % v, db.where(hb, m["l"]), "%s operations are rooted as well (conservative)" % v)
     term = False
-    for n in walk(hb["body"]):
+    from armlib import unit_bodies
+    for n in (x for b_ in unit_bodies(db, db.hir[DCE]) for x in walk(b_["body"])):
         if n.get("k") == "MethodCall" and n["name"] == "filter" and n["args"]:
             cs = [last_seg(callee(x) or "") for x in walk(n["args"][0])]
             if "edges_out" in cs and "is_empty" in cs:
@@ -136,11 +141,14 @@ def r3(db, rep):
                  "candidate; Some(non-empty) -> candidate")
     hb = db.hir[DCE]
     clo = None
-    for n in walk(hb["body"]):
-        if n.get("k") == "MethodCall" and n["name"] == "filter" and n["args"] and n["args"][0].get("k") == "Closure":
-            cs = [last_seg(callee(x) or "") for x in walk(n["args"][0])]
-            if "scalars_written" in cs:
-                clo = n["args"][0]
+    from armlib import unit_bodies
+    for b_ in unit_bodies(db, db.hir[DCE]):
+        for n in walk(b_["body"]):
+            if n.get("k") == "MethodCall" and n["name"] == "filter" and n["args"] and n["args"][0].get("k") == "Closure":
+                cs = [last_seg(callee(x) or "") for x in walk(n["args"][0])]
+                if "scalars_written" in cs:
+                    clo = n["args"][0]
+                    hb = b_
     rep.anchor(clo is not None, "candidate filter closure")
     cases = {
         "no_instruction": (optval.NONE, None, None, optval.F),
